@@ -137,6 +137,15 @@ def shard(binpath, seed, sh, n):
     wires = scen.sign_all(binpath, reqs, nproc=1)
     cases = []
     for sc in scs:
+        # a functionary may have signed his link twice (the same entry appended again): still one valid link of his
+        if rng.random() < 0.3:
+            ref_signed = wires[sc["links"][0]["req"]]["signed"]
+            dis = [l for l in sc["links"] if wires[l["req"]]["signed"] != ref_signed] or sc["links"]
+            l = rng.choice(dis)
+            w = copy.deepcopy(wires[l["req"]])
+            w["signatures"].append(copy.deepcopy(w["signatures"][-1]))
+            wires[l["req"]] = w
+            sc["meta"]["signed_twice"] = True
         files = {f"{l['step']}.{W.pfx(l['key'])}.link": scen.dumps(wires[l["req"]]) for l in sc["links"]}
         # a link directory assembled from per-functionary drop directories: some link files are symbolic links to regular
         # files kept elsewhere (a file is a file however it got its name)
@@ -162,6 +171,8 @@ def shard(binpath, seed, sh, n):
                "accepted" if oks else "rejected"]
         if not m["dissent_in_artifacts"] and oks:
             cls.append("positive_control_accepted")
+        if m.get("signed_twice"):
+            cls.append("a_link_carries_its_signature_twice:" + ("accepted" if oks else "rejected"))
         if m.get("symlinked"):
             cls.append(f"link_files_are_symlinks:{m['symlinked']}:" + ("accepted" if oks else "rejected"))
         if m.get("cosigned"):
@@ -262,7 +273,7 @@ def main(ctx):
              "or only in byproducts/command (positive control) or not at all; the dissenter has the smallest / middle / "
              "largest key id; 8 verifications per scenario; every scenario non-trivial; distinct by (layout, directory)",
         assumptions=["validity of all links by construction"],
-        required=["link_files_are_symlinks:dissenter:rejected", "link_files_are_symlinks:all:accepted", "crowd:dissent:none", "crowd:accepted", "crowd:rejected", "positive_control_accepted", "dissent:path", "dissent:digest", "dissent:alg", "dissent:extra",
+        required=["a_link_carries_its_signature_twice:rejected", "a_link_carries_its_signature_twice:accepted", "link_files_are_symlinks:dissenter:rejected", "link_files_are_symlinks:all:accepted", "crowd:dissent:none", "crowd:accepted", "crowd:rejected", "positive_control_accepted", "dissent:path", "dissent:digest", "dissent:alg", "dissent:extra",
                   "dissent:missing", "where:materials", "where:products", "rank:smallest", "rank:largest", "rank:middle",
                   "surplus_links", "threshold:2", "threshold:3", "threshold:4", "dissent:byproducts_only", "dissent:digest_truncated", "dissent:path_respelled",
                   "dissent:delegated:none", "dissent:delegated:digest", "dissent:inner_step_of_surplus_sublayout:digest", "dissent:inner_step_of_surplus_sublayout:none", "dissent:delegated:extra", "dissent:extra_without_digests", "dissent:digests_emptied", "dissenter_cosigned_another_link:dissent", "dissenter_cosigned_another_link:no_artifact_dissent"],
